@@ -368,6 +368,40 @@ pub fn run(prop: &str, seed: u64, nhist: usize, trace_path: Option<&str>, rep: &
             }
         }
     }
+    // ---------------- Lzma2Decoder: first use (any pool stream: valid, failing half-way, ...) -> reset -> probe ----------------
+    // the probes lean on the decoder's initial state (no new properties / no state reset in their first chunk), so
+    // anything a reset leaves behind shows
+    for h in 0..nhist.min(4) {
+        let pool = lzma2_pool(&mut rng);
+        let probes: Vec<usize> = pool.iter().enumerate().filter(|(_, (_, n))| n.starts_with("lenient-")).map(|(i, _)| i).collect();
+        for (pi, (first, fname)) in pool.iter().enumerate() {
+            for &qi in &probes {
+                let mut d = Lzma2Decoder::new();
+                let _ = dec2(&mut d, first);
+                if (pi + h) % 3 == 0 {
+                    let _ = dec2(&mut d, &pool[(pi + 1) % pool.len()].0);
+                }
+                d.reset();
+                let r = dec2(&mut d, &pool[qi].0);
+                let mut f = Lzma2Decoder::new();
+                let rf = dec2(&mut f, &pool[qi].0);
+                rep.eval(hash_of(&(h, pi, qi, "l2-first-use")), true);
+                let mut vs = vec![];
+                if r.0 == Verdict::Panic {
+                    vs.push(format!("panic: {}", r.2));
+                } else if rf.0 != Verdict::Panic {
+                    if (r.0 == Verdict::Ok) != (rf.0 == Verdict::Ok) {
+                        vs.push(format!("verdict {:?} ({}), a new decoder gives {:?} ({})", r.0, r.2, rf.0, rf.2));
+                    } else if r.0 == Verdict::Ok && r.1 != rf.1 {
+                        vs.push("output differs from a new decoder's".into());
+                    }
+                }
+                if !vs.is_empty() {
+                    rep.violation(prop, format!("Lzma2Decoder [decompress({}), reset(), decompress({})]: {}", fname, pool[qi].1, vs.join("; ")), json!({"kind": "reuse", "decoder": "lzma2", "seed": seed, "history": h, "ops": [fname, "reset()", pool[qi].1]}));
+                }
+            }
+        }
+    }
     // ---------------- Lzma2Decoder ----------------
     for h in 0..nhist {
         let pool = lzma2_pool(&mut rng);
